@@ -138,6 +138,7 @@ class Upstream(threading.Thread):
         self.lock = threading.Lock()
         self.stop = False
         self.stall = 0.0      # seconds during which an accepted connection is not read from (a peer that is busy)
+        self.half_close = False  # after sending its script the server shuts down its write side and keeps reading
 
     def run(self):
         while not self.stop:
@@ -154,6 +155,8 @@ class Upstream(threading.Thread):
                     for chunk in script:
                         conn.sendall(chunk)
                         time.sleep(0.002)
+                    if self.half_close:
+                        conn.shutdown(socket.SHUT_WR)
                 except OSError:
                     pass
             threading.Thread(target=sender, daemon=True).start()
@@ -530,9 +533,13 @@ def quiet_part(res, rng, nsessions):
                     pass
             cdata = b"".join(gen.rand_frame(rng, small=True) for _ in range(rng.randint(3, 8))) + gen.rand_junk(rng)
             sdata = b"ICY 200 OK\r\n\r\n" + gen.rand_bytes(rng, 300)
+            half = sidx % 2 == 0
             with up.lock:
                 up.script = [sdata]
                 up.received.clear()
+                up.half_close = half
+            if half:
+                res.count("the upstream server shuts down its write side after its reply and keeps reading")
             res.evaluations += 1
             res.count("relay session with the message log switched " + ("off" if 1 <= sidx < nsessions - 1 else "on"))
             case = dict(kind="log switched off/on by the operator", session=sidx, client_bytes=len(cdata), client_hex=cdata[:120].hex())
@@ -544,6 +551,8 @@ def quiet_part(res, rng, nsessions):
             got = bytearray()
             try:
                 cl.settimeout(5)
+                if half:
+                    time.sleep(0.4)   # the server's half-close has reached the proxy before the client sends
                 for ch in chunked(rng, cdata):
                     cl.sendall(ch)
                 t_end = time.time() + 6
